@@ -1532,8 +1532,9 @@ func (pc *PartitionContext) removeAllocation(release *si.AllocationRelease) ([]*
 				zap.String("nodeID", alloc.GetNodeID()))
 			continue
 		}
-		// without a replacement in flight there is nothing to swap in: the allocation is simply removed
-		if release.TerminationType == si.TerminationType_PLACEHOLDER_REPLACED && alloc.GetRelease() != nil {
+		// without a replacement in flight there is nothing to swap in: the allocation is simply removed, the same is
+		// true when all allocations of the application are removed (no allocation key): nothing was swapped in
+		if release.TerminationType == si.TerminationType_PLACEHOLDER_REPLACED && allocationKey != "" && alloc.GetRelease() != nil {
 			confirmed = alloc.GetRelease()
 			// we need to check the resources equality
 			delta := resources.Sub(confirmed.GetAllocatedResource(), alloc.GetAllocatedResource())
